@@ -232,9 +232,13 @@ impl Ctx {
 			let _ = std::fs::create_dir_all(&dir);
 			let path = dir.join(format!("{}.json", self.prop));
 			let text = serde_json::to_string_pretty(&evidence).unwrap_or_else(|e| machinery_fail(&format!("evidence: {e}")));
-			if std::fs::write(&path, text + "\n").is_err() {
+			if std::fs::write(&path, text.clone() + "\n").is_err() {
 				machinery_fail(&format!("cannot write evidence file {path:?}"));
 			}
+			// a copy per tier, so that the last thorough run stays on record when the quick tier runs again
+			let tiers = dir.join("tiers");
+			let _ = std::fs::create_dir_all(&tiers);
+			let _ = std::fs::write(tiers.join(format!("{}.{}.json", self.prop, self.tier.name())), text + "\n");
 		}
 		for (key, (what, n)) in &known {
 			println!("KNOWN-FINDING: property={} key={} ({} occurrences) {}", self.prop, key, n, what);
